@@ -79,6 +79,8 @@ pub fn fault_leaf(env: &mut Env, leaf: &Leaf, damage_variant: bool) {
     };
     env.stats.state(&(hash_of(&baseline), image.len(), damage_variant));
     let budget = base_ticks * 10 + 1000;
+    env.stats.sample(|| json!({"engine": "fault", "seed": leaf.seed.name, "ops": leaf.ops.iter().map(|o| o.short()).collect::<Vec<_>>(), "damaged_block": damage_variant, "wal_files": image.len(),
+        "recovery_calls": {"read_dir": counts[CallKind::ReadDir as usize], "open": counts[CallKind::Open as usize], "read": counts[CallKind::Read as usize]}, "fault_free_ticks": base_ticks}));
     for (kind, kind_name) in KINDS {
         let n_calls = counts[kind as usize];
         for nth in 0..n_calls {
